@@ -84,10 +84,7 @@ func RunSolo(t *rapid.T, test string) {
 				bi = blockInfo{types.BlockID{Hash: b.Hash(), PartSetHeader: ps.Header()}, b, ps}
 				note(h, bi)
 			}
-			pol := int32(-1)
-			if r > 0 && rapid.Bool().Draw(t, "pol") {
-				pol = rapid.Int32Range(0, r-1).Draw(t, "polr")
-			}
+			pol := forgedPOL(t, net, h, r, "pol")
 			before := len(net.Pool)
 			net.InjectProposal(pk, h, r, pol, bi.block, bi.parts, nil, true)
 			for _, p := range net.Pool[before:] {
